@@ -268,6 +268,8 @@ func (update *Update) compress() *compressedUpdate {
 
 func (update *Update) uncompress(c *compressedUpdate) {
 	update.SignedAccumulator = c.SignedAccumulator
+	// the memoised product belongs to the events that are being replaced
+	update.product, update.productFrom = nil, 0
 	if c.E != nil {
 		update.Events = c.E.Events
 	} else {
